@@ -91,7 +91,9 @@ theorem frame_processCmd (w : W) (p : Nat) (d : Dg) :
       simp only []
       split
       · exact ⟨rfl, rfl, rfl, h0⟩
-      · exact ⟨rfl, rfl, rfl, fun q => by simp only [bump, sendN]; exact h0 q⟩
+      · split
+        · exact ⟨rfl, rfl, rfl, h0⟩
+        · exact ⟨rfl, rfl, rfl, fun q => by simp only [bump, sendN]; exact h0 q⟩
     | some lf =>
       simp only []
       split
@@ -499,6 +501,16 @@ theorem step_conn_inv (w : W) (p : Nat) (hinv : Inv w) : Inv (connPeer w p) := b
     exact hold
   · exact hold
 
+theorem frame_localSet (w : W) (a : Addr) (fn v : Nat) :
+    (localSet w a fn v).1.binds = w.binds ∧ (localSet w a fn v).1.cfg = w.cfg ∧ (localSet w a fn v).1.fresh = w.fresh ∧
+      ∀ q, ((localSet w a fn v).1.peers q).feats = (w.peers q).feats := by
+  unfold localSet
+  split
+  · split
+    · exact ⟨rfl, rfl, rfl, fun _ => rfl⟩
+    · exact ⟨rfl, rfl, rfl, fun _ => rfl⟩
+  · exact ⟨rfl, rfl, rfl, fun _ => rfl⟩
+
 /-! #### one step, then histories -/
 
 theorem step_frame (w : W) (op : Op) : (step w op).1.cfg = w.cfg ∧ (step w op).1.fresh = w.fresh := by
@@ -509,6 +521,7 @@ theorem step_frame (w : W) (op : Op) : (step w op).1.cfg = w.cfg ∧ (step w op)
   | entAdd p e ctr ack => exact ⟨(frame_processEntAdd w p e ctr ack).2.1, (frame_processEntAdd w p e ctr ack).2.2⟩
   | drop p => exact ⟨rfl, rfl⟩
   | conn p => exact ⟨(frame_connPeer w p).2.1, (frame_connPeer w p).2.2⟩
+  | setData a fn v => exact ⟨(frame_localSet w a fn v).2.1, (frame_localSet w a fn v).2.2.1⟩
 
 theorem step_inv (w : W) (op : Op) (hinv : Inv w) (hok : opOk w.fresh op) : Inv (step w op).1 := by
   cases op with
@@ -521,6 +534,10 @@ theorem step_inv (w : W) (op : Op) (hinv : Inv w) (hok : opOk w.fresh op) : Inv 
   | entAdd p e ctr ack => exact step_entAdd_inv w p e ctr ack hinv hok
   | drop p => exact step_drop_inv w p hinv
   | conn p => exact step_conn_inv w p hinv
+  | setData a fn v =>
+    have hf := frame_localSet w a fn v
+    exact inv_of_subset w _ hinv (fun b hb => by rw [show (step w (.setData a fn v)).1 = (localSet w a fn v).1 from rfl, hf.1] at hb; exact hb)
+      (fun b _ => hf.2.2.2 b.2.1)
 
 theorem step_sound (w : W) (op : Op) (holds : Entry → Bool) (hinv : Inv w) (hs : Sound w holds) :
     Sound (step w op).1 (specStep holds (evOf w op)) := by
@@ -539,6 +556,10 @@ theorem step_sound (w : W) (op : Op) (holds : Entry → Bool) (hinv : Inv w) (hs
   | conn p =>
     intro x hx
     rw [show (step w (.conn p)).1 = connPeer w p from rfl, (frame_connPeer w p).1] at hx
+    exact hs x hx
+  | setData a fn v =>
+    intro x hx
+    rw [show (step w (.setData a fn v)).1 = (localSet w a fn v).1 from rfl, (frame_localSet w a fn v).1] at hx
     exact hs x hx
 
 theorem step_agree (w : W) (op : Op) (holds : Entry → Bool) (hu : w.cfg.unbindDisjunct = false)
@@ -559,6 +580,10 @@ theorem step_agree (w : W) (op : Op) (holds : Entry → Bool) (hu : w.cfg.unbind
   | conn p =>
     intro x
     rw [show (step w (.conn p)).1 = connPeer w p from rfl, (frame_connPeer w p).1]
+    exact hag x
+  | setData a fn v =>
+    intro x
+    rw [show (step w (.setData a fn v)).1 = (localSet w a fn v).1 from rfl, (frame_localSet w a fn v).1]
     exact hag x
 
 theorem run_sound (ops : List Op) : ∀ (w : W) (holds : Entry → Bool), Inv w → Sound w holds →
@@ -613,7 +638,7 @@ def witLF2 : LF := { ent := [2], feat := 2, typ := 1, role := .server, fds := [5
 def witW : W :=
   { loc := [witLF1, witLF2], peers := fun _ => ⟨[], 0, []⟩, binds := [],
     fresh := ⟨[⟨[0], 0, [], 9, .special⟩, ⟨[1], 1, [5], 1, .client⟩], 3, []⟩ }
-def witD (dst : Addr) : Dg := ⟨([1], 1), dst, 50, none, .write, true, 5, false⟩
+def witD (dst : Addr) : Dg := { src := ([1], 1), dst := dst, ctr := some 50, ref := none, cls := .write, ack := true, fn := 5, val := 7 }
 
 /-- another peer's entity removal: conn 1, conn 2, peer 1 binds [1]/1 to [1]/1, peer 2 announces the removal of its
     entity [1] -/
